@@ -13,10 +13,17 @@ ASSUMPTIONS = ["constructed states: requests attached to the connection as the l
                "user callbacks only count (they do not call back into the library)"]
 DESIGN_REF = "DESIGN.md §5 C27"
 
-# req->cb is an indirect call: cbmc considers every function of that signature, i.e. also evhttp_handle_request (the whole
-# routing/reply code, property C30).  No constructed request has it as callback except the 503 request of the accept step,
-# which is never run (evhttp_send_error is cut): its body is removed.
-CUTS = [["--remove-function-body", "evhttp_handle_request"], ["--replace-calls", "evhttp_connection_connect_:vp_cut_connect"], ["--replace-calls", "evhttp_request_dispatch:vp_cut_dispatch"],
+# Indirect calls (req->cb, error_cb, closecb, on_complete_cb): cbmc's function-pointer removal considers every function whose
+# parameter list is pointer-compatible, i.e. also the message readers/writers of http.c (void f(evcon *, req *) ...) and
+# evhttp_handle_request (routing, C30).  In the constructed states these pointers only ever hold the harness callbacks
+# (ASSUMPTIONS); the bodies of the other candidates are removed so that symbolic execution does not wander into the parsers.
+NOT_TARGETS = ["evhttp_handle_request", "evhttp_read_firstline", "evhttp_read_header", "evhttp_get_body", "evhttp_read_body", "evhttp_read_trailer",
+               "evhttp_lingering_close", "evhttp_lingering_fail", "evhttp_send_continue", "evhttp_send_continue_done", "evhttp_write_connectioncb",
+               "evhttp_make_header", "evhttp_make_header_request", "evhttp_make_header_response", "evhttp_send_page_", "evhttp_send",
+               "evhttp_send_reply_chunk", "evhttp_read_cb", "evhttp_write_cb", "evhttp_send_notfound", "evhttp_deferred_read_cb"]
+def _rm(extra=()):
+    return sum([["--remove-function-body", f] for f in list(NOT_TARGETS) + list(extra)], [])
+CUTS = [_rm(["evhttp_send_done"]), ["--replace-calls", "evhttp_connection_connect_:vp_cut_connect"], ["--replace-calls", "evhttp_request_dispatch:vp_cut_dispatch"],
         ["--replace-calls", "evhttp_connection_read_on_write_error:vp_cut_read_on_write_error"],
         ["--replace-calls", "evhttp_associate_new_request_with_connection:vp_cut_associate"]]
 CUTS_ACCEPT = CUTS + [["--replace-calls", "evhttp_send_error:vp_cut_send_error"], ["--replace-calls", "evhttp_get_request_connection:vp_cut_get_request_connection"]]
@@ -35,6 +42,7 @@ def obligations(tier):
              ("ACCEPT", "evhttp_get_request: connection_max / connection_cnt symbolic")]
     for s, d in steps:
         obs.append(dict(name="step_" + s.lower(), harness="C27_lifecycle.c", entry="harness_step", defines=["VP_STEP_" + s], unwind=12,
-                    unwindset=["vp_in_set.0:80", "strspn.0:20"], instrument=CUTS_ACCEPT if s == "ACCEPT" else CUTS, native=False,
+                    unwindset=["vp_in_set.0:80", "strspn.0:20", "evhttp_connection_cb_cleanup.1:4", "evhttp_connection_cb_cleanup.5:4", "evhttp_connection_cb_cleanup.7:4",
+                               "evhttp_connection_free.0:4", "evhttp_clear_headers.1:3", "evhttp_clear_headers.0:3"], instrument=CUTS_ACCEPT if s == "ACCEPT" else ([_rm()] + CUTS[1:] if s == "SEND_DONE" else CUTS), native=False,
                     cbmc=["--memory-leak-check", "--object-bits", "10"], timeout=900, mem_gb=6, desc=d))
     return obs
